@@ -74,7 +74,7 @@ def generic_minimise(case, fails):
     base = dict(base, ops=ops)
     # drop options from ops
     for i, op in enumerate(list(base['ops'])):
-        if op.get('opts'):
+        if op.get('opts') and not op.get('rawput'):
             ops2 = copy.deepcopy(base['ops'])
             ops2[i]['opts'] = {}
             if fails(dict(base, ops=ops2)):
